@@ -19,7 +19,10 @@
      instances in the same order, its steps are chained with gap epsilon, pairwise disjoint and ordered (so the
      happenings of the temporal run are start_1, end_1, start_2, end_2, ...), and every chosen duration passes the
      reference duration test [dur_ok] in the state in which the compiled step is applied.
-   * missing for the goal: (1) one compiled step from s = start effects then end effects of the durative action from s,
+   * [C28_whole_step_no_start_effects], [C28_whole_plan_no_start_read] : proved for ALL inputs - the single-step
+     simulation and the WHOLE-PLAN theorem (conclusion [tt_valid]) for the sub-fragment [no_start_fragment] (only
+     durative actions, effects only at EndTiming() as unconditional assignments, plain compiler output).
+   * missing for the goal (actions WITH start effects, instantaneous actions mixed in): (1) one compiled step from s = start effects then end effects of the durative action from s,
      with the over-all / end conditions true in the intermediate state (needs the semantic substitution lemma
      eval (substitute sigma c) I_s = eval c I_mid for lifted keys), (2) composing the per-step runs into [run_times]
      over [times_of (all_events ..)] using the ordering proved here, (3) goals in the final state. *)
@@ -34,24 +37,10 @@ Local Open Scope Qc_scope.
    for the real simplifier under its side conditions; the identity satisfies it) *)
 Definition smp_ok (sc : bool) (smp : expr -> expr) : Prop := forall e I, eval sc (smp e) I = eval sc e I.
 
-(* along the compiled plan run from [s]: every durative step's duration interval is non-empty in the state where the
-   step is applied *)
-Fixpoint nonempty_along (sc : bool) (TP : tproblem) (P' : problem) (s : state) (pi : list (N * list value)) : Prop :=
-  match pi with
-  | [] => True
-  | (aid, args) :: rest =>
-      match lookup_tact TP aid with
-      | Some (TDur d) => dur_nonempty sc (tp_base TP) s (zip_params (d_params d) args) d = true
-      | _ => True
-      end /\
-      match lookup_action P' aid with
-      | Some a' => match spec_step sc P' s a' args with Some s' => nonempty_along sc TP P' s' rest | None => True end
-      | None => True
-      end
-  end.
-
-(* a durative action of duration 0 has its start and end effects at the same instant (applied jointly) *)
-Definition positive_durations (tpl : tplan) : Prop := forall st dt, In st tpl -> ps_dur st = Some dt -> zq 0 < dt.
+(* [nonempty_along sc TP P' s pi]: along the compiled plan run from [s], every durative step's duration interval is
+   non-empty in the state where the step is applied; [positive_durations tpl]: every chosen duration is > 0 (a durative
+   action of duration 0 has its start and end effects at the same instant, applied jointly).
+   Both are defined in Proofs/T2SCompile_proofs.v. *)
 
 Definition C28_whole_plan_goal : Prop :=
   forall sc smp (TP : tproblem) (P' : problem) (eps : Qc) (s0 : state) (pi : list (N * list value)) (tpl : tplan),
@@ -267,31 +256,61 @@ Theorem C28_whole_step_no_start_effects :
 Proof. exact step_no_start_effects. Qed.
 Print Assumptions C28_whole_step_no_start_effects.
 
-(* the plan-level statement for that sub-fragment (composition of the per-step runs into [run_times], goals in the
-   final state): NOT proved yet *)
-Definition C28_whole_plan_no_start_read_goal : Prop :=
+(* WHOLE-PLAN VALIDITY for the sub-fragment [no_start_fragment] (all actions durative, effects only at EndTiming() as
+   unconditional assignments, compiler output of the plain form; Compilers/T2SCompile.v): every sequential plan valid
+   for the compiled problem converts back into a time-triggered plan that satisfies the reference dense-time semantics
+   of the original problem.  Hypotheses besides the fragment: [smp_ok] (the simplifier preserves evaluation), no bounded
+   numeric fluent, epsilon > 0, non-empty duration intervals along the run, positive chosen durations (the last three
+   are shown necessary by the [_refuted] examples above / the zero-duration remark). *)
+Theorem C28_whole_plan_no_start_read :
   forall sc smp (TP : tproblem) (P' : problem) (eps : Qc) (s0 : state) (pi : list (N * list value)) (tpl : tplan),
     smp_ok sc smp -> no_start_fragment smp TP = true -> bound_invs (tp_base TP) = [] ->
     t2s_problem smp TP = Some P' -> zq 0 < eps ->
     valid_plan sc P' s0 pi = true -> back_plan sc TP P' eps (zq 0) s0 pi = Some tpl ->
     nonempty_along sc TP P' s0 pi -> positive_durations tpl ->
     tt_valid sc TP s0 tpl.
+Proof.
+  intros sc smp TP P' eps s0 pi tpl OK FR BI CP He.
+  exact (plan_no_start_read sc smp OK TP P' eps FR CP He s0 pi tpl BI).
+Qed.
+Print Assumptions C28_whole_plan_no_start_read.
 
 (* --- E: non-vacuity of the step theorem: a(duration 2): over [start, end] not g, at end n := 5 *)
 Definition exE_d : daction :=
   {| d_params := []; d_lo := EInt 2; d_hi := EInt 2; d_lopen := false; d_ropen := false;
      d_conds := [ ({| ti_lo := st0; ti_hi := en0; ti_lopen := false; ti_ropen := false |}, [ENot exg]) ];
      d_effs := [ (en0, [mkeff 0 [] (EInt 5) KAssign false]) ] |}.
-Definition exE_TP : tproblem := {| tp_base := exA_base; tp_dur := [(0%N, exE_d)]; tp_teffs := []; tp_tgoals := [] |}.
+Definition exE_base : problem :=
+  {| p_objs := []; p_ifun := [];
+     p_fluents := [ {| fd_id := 0%N; fd_sig := []; fd_ty := FNum None None |}; {| fd_id := 1%N; fd_sig := []; fd_ty := FBool |} ];
+     p_actions := []; p_goals := [ELe (EInt 5) exn]; p_invs := [] |}.
+Definition exE_TP : tproblem := {| tp_base := exE_base; tp_dur := [(0%N, exE_d)]; tp_teffs := []; tp_tgoals := [] |}.
 Definition exE_act : action :=
   {| a_params := []; a_pre := [ENot exg]; a_effs := [mkeff 0 [] (EInt 5) KAssign false] |}.
 
 Example C28_whole_step_nonvacuous :
   no_start_fragment idsmp exE_TP = true /\ t2s_action idsmp exE_d = Some exE_act /\
-  plain_step idsmp exE_d exE_act = true /\ same_base exA_base (compiled exE_TP) /\
+  plain_step idsmp exE_d exE_act = true /\ same_base exE_base (compiled exE_TP) /\
   match spec_step true (compiled exE_TP) exA_s0 exE_act [] with Some _ => true | None => false end = true.
 Proof.
   split; [vm_compute; reflexivity|]. split; [vm_compute; reflexivity|]. split; [vm_compute; reflexivity|].
   split; [repeat split; reflexivity | vm_compute; reflexivity].
 Qed.
 Print Assumptions C28_whole_step_nonvacuous.
+
+(* non-vacuity of C28_whole_plan_no_start_read: all hypotheses hold on instance E with the plan [a] *)
+Example C28_whole_plan_no_start_read_nonvacuous :
+  no_start_fragment idsmp exE_TP = true /\ bound_invs (tp_base exE_TP) = [] /\
+  t2s_problem idsmp exE_TP = Some (compiled exE_TP) /\ zq 0 < eps100 /\
+  valid_plan true (compiled exE_TP) exA_s0 exA_pi = true /\
+  back_plan true exE_TP (compiled exE_TP) eps100 (zq 0) exA_s0 exA_pi = Some (converted exE_TP exA_s0 exA_pi) /\
+  nonempty_along true exE_TP (compiled exE_TP) exA_s0 exA_pi /\ positive_durations (converted exE_TP exA_s0 exA_pi) /\
+  tt_valid_b true exE_TP exA_s0 (converted exE_TP exA_s0 exA_pi) = true.
+Proof.
+  split; [vm_compute; reflexivity|]. split; [vm_compute; reflexivity|]. split; [vm_compute; reflexivity|].
+  split; [reflexivity|]. split; [vm_compute; reflexivity|]. split; [vm_compute; reflexivity|].
+  split; [vm_compute; split; [reflexivity | exact I]|].
+  split; [|vm_compute; reflexivity].
+  intros st dt Hin Hd. vm_compute in Hin. destruct Hin as [<-|[]]. cbn in Hd. inversion Hd. reflexivity.
+Qed.
+Print Assumptions C28_whole_plan_no_start_read_nonvacuous.
